@@ -112,6 +112,7 @@ class Engine(HeapMixin, ExprMixin, AccessMixin, CallMixin, StmtMixin):
     self.const_state = State()
     self.const_state.alloc = z3.IntVal(0)
     self.yield_counter = {}
+    self.yield_hits = set()
     self.relies = {}
     self._ob_names = {}
     self.ghost_depth = 0
@@ -242,6 +243,11 @@ class Engine(HeapMixin, ExprMixin, AccessMixin, CallMixin, StmtMixin):
       st.assume(self.spec_bool(st, cx, r))
     for r in spec.entry_assume:
       st.assume(self.spec_bool(st, cx, r))
+    conc = self.conc_of(cx)
+    if conc is not None:
+      for e in conc.get('invariant', ()):
+        st.assume(self.spec_bool(st, cx, e))
+      st.labels['seg'] = entry
     # cover check: the precondition must be satisfiable.  Models of quantified formulas are
     # expensive to find, so: refute-or-model the quantifier-free part, then try the full
     # condition under a short budget ('sat' = confirmed, 'unknown' = quantifier-free only).
@@ -274,6 +280,7 @@ class Engine(HeapMixin, ExprMixin, AccessMixin, CallMixin, StmtMixin):
         if spec.returns is not None and isinstance(rv, V):
           rv = self.cast_to(s1, rv, spec.returns)
         s1.frames[fid]['result'] = rv
+        self.segment_end(s1, cx, fnode, 'exit')
         for lem in spec.lemmas:
           self.use_lemma(s1, cx, lem, fnode)
         for n, e in enumerate(spec.ensures):
@@ -307,6 +314,9 @@ class Engine(HeapMixin, ExprMixin, AccessMixin, CallMixin, StmtMixin):
           self.check_frame(s1, entry, modkeys, 'frame[%s]' % name, fnode)
       else:
         raise Unsupported('%s escapes the function body' % kind)
+    for y in spec.yields:
+      if (spec.name, y['at']) not in self.yield_hits:
+        raise Unsupported('yield anchor %r not found in %s (source drift)' % (y['at'], name))
     for g in spec.ghost:
       if (spec.name, g.get('after', g.get('before')).strip()) not in self.ghost_hits:
         raise Unsupported('ghost anchor %r not found in %s (source drift)' % (g.get('after', g.get('before')), name))
@@ -370,39 +380,79 @@ class Engine(HeapMixin, ExprMixin, AccessMixin, CallMixin, StmtMixin):
       st.frames.pop(qfid, None)
 
   # ------------------------------------------------------------------ yields
+  # Cooperative scheduling (DESIGN 2.9).  A CONCURRENCY entry of the sidecar gives, for the
+  # shared state of one object: 'state' (heap patterns others may change while we are
+  # descheduled), 'invariant' (one-state clauses over 'self') and 'guarantee' (two-state clauses
+  # every atomic segment of every listed operation establishes; they must be reflexive and
+  # transitive).  At a yield point: prove invariant + guarantee for the segment that ends,
+  # havoc the shared state, assume invariant + guarantee (old = the state at the yield).
+  def conc_of(self, cx):
+    spec = cx.spec
+    if spec is None or not spec.conc:
+      return None
+    c = self.reg.concurrency.get(spec.conc)
+    if c is None:
+      raise Unsupported('unknown CONCURRENCY entry %s' % spec.conc)
+    return c
+
+  def segment_end(self, st, cx, node, what):
+    """Obligations at the end of an atomic segment (yield or exit)."""
+    conc = self.conc_of(cx)
+    if conc is None:
+      return
+    line = getattr(node, 'lineno', '?')
+    for i, e in enumerate(conc.get('invariant', ())):
+      self.oblige(st, 'conc-inv[%s:%s#%d]@%s' % (cx.qual, what, i, line), self.spec_bool(st, cx, e), node,
+                  'shared-state invariant %r holds when the segment ends (%s)' % (e, what))
+    seg = st.labels.get('seg')
+    if seg is not None:
+      self.old_stack.append((seg, self.old_stack[0][1]))
+      try:
+        for i, e in enumerate(conc.get('guarantee', ())):
+          self.oblige(st, 'conc-guar[%s:%s#%d]@%s' % (cx.qual, what, i, line), self.spec_bool(st, cx, e), node,
+                      'guarantee %r over the atomic segment ending at %s' % (e, what))
+      finally:
+        self.old_stack.pop()
+
   def at_yield(self, st, cx, node, ex):
     spec = cx.spec
+    name = getattr(ex, 'name', '?')
+    line = getattr(node, 'lineno', '?')
     if spec is None:
-      raise Unsupported('yield point %s in inlined code without a contract (line %s)' % (ex.name, getattr(node, 'lineno', '?')))
-    n = self.yield_counter.get(cx.qual, 0)
-    self.yield_counter[cx.qual] = n + 1
-    # identify by the source line order: yields are numbered per line occurrence
-    key = None
-    lines = sorted(set(spec.yields.keys())) if spec.yields else []
+      raise Unsupported('yield point %s in code without a contract (line %s)' % (name, line))
+    if cx.qual != spec.name:
+      raise Unsupported('yield point %s inside inlined %s (line %s): give it a contract with may_yield' % (name, cx.qual, line))
+    src = ast.unparse(node) if node is not None else ''
     ys = None
-    for k, v in (spec.yields or {}).items():
-      if v.get('line_of') and v['line_of'] in (self.src.module(spec.file).segment(node) if spec.file else ''):
-        ys = v
-        key = k
+    for y in spec.yields:
+      if y['at'] in src:
+        ys = y
         break
     if ys is None:
-      raise Unsupported('yield point %s at line %s of %s has no yields entry' % (ex.name, getattr(node, 'lineno', '?'), cx.qual))
+      raise Unsupported('yield point %s at line %s of %s has no yields entry (%s)' % (name, line, cx.qual, src[:60]))
+    self.yield_hits.add((spec.name, ys['at']))
     if self.lock_depth:
-      raise Unsupported('yield point %s inside a lock region (line %s)' % (ex.name, getattr(node, 'lineno', '?')))
-    line = getattr(node, 'lineno', '?')
+      raise Unsupported('yield point %s inside a lock region (line %s)' % (name, line))
+    key = ys['at'][:30]
+    self.segment_end(st, cx, node, 'yield ' + key)
     for i, e in enumerate(ys.get('assert', ())):
       self.oblige(st, 'yield-assert[%s:%s#%d]@%s' % (cx.qual, key, i, line), self.spec_bool(st, cx, e), node,
-                  'holds when yielding at %s: %r' % (ex.name, e))
+                  'holds when yielding at %s: %r' % (name, e))
+    conc = self.conc_of(cx) or {}
     snap = dict(st.heap)
     snap['$alloc'] = st.alloc
-    self.havoc_patterns(st, ys.get('havoc', ()))
+    self.havoc_patterns(st, list(conc.get('state', ())) + list(ys.get('havoc', ())))
     a = z3.Int(fresh_name('alloc'))
     st.assume(a >= st.alloc)
+    st.assume(self.no_finals_between(st, st.alloc, a)) if not conc.get('allocates_final') else None
     st.alloc = a
     self.old_stack.append((snap, self.old_stack[0][1]))
     try:
-      for e in ys.get('rely', ()):
+      for e in list(conc.get('invariant', ())) + list(conc.get('guarantee', ())) + list(ys.get('rely', ())):
         st.assume(self.spec_bool(st, cx, e))
     finally:
       self.old_stack.pop()
+    seg = dict(st.heap)
+    seg['$alloc'] = st.alloc
+    st.labels['seg'] = seg
     st.path.append('yield:%s@%s' % (key, line))
